@@ -17,6 +17,7 @@ pub const TIME_BUDGET_MS: u128 = 1000;
 
 pub fn parse_case(b: &[u8], tag: &str) -> Case {
     let bb = b.to_vec();
+    watch(&format!("parse {}", text::hex(b)));
     let t0 = Instant::now();
     let (out, heap) = metered(|| {
         guard(move || match Packet::parse(&bb) {
@@ -150,6 +151,35 @@ pub fn cases(tier: &str, seed: u64) -> Vec<Case> {
                         }
                     }
                 }
+            }
+        }
+    }
+    // pointer structures hidden where nothing parses them as a name first — the header id and the
+    // opaque RDATA of an earlier record — and reached through a legal backward pointer
+    let junk_alpha: [u8; 7] = [0xC0, 0x00, 0x01, 0x17, 0x18, 0x19, 0x61];
+    let jl = if thorough { 5 } else { 4 };
+    for len in 1..=jl {
+        let total = junk_alpha.len().pow(len as u32);
+        for mut code in 0..total {
+            let mut junk = vec![];
+            for _ in 0..len { junk.push(junk_alpha[code % junk_alpha.len()]); code /= junk_alpha.len(); }
+            if !junk.contains(&0xC0) { continue; }
+            // header, one NULL record with root owner whose RDATA (at offset 23) is the junk, then a
+            // record whose owner is a pointer into that RDATA
+            let mut b = vec![0u8, 0, 0x80, 0, 0, 0, 0, 2, 0, 0, 0, 0];
+            b.extend_from_slice(&[0, 0, 10, 0, 1, 0, 0, 0, 0, 0, len as u8]);
+            b.extend_from_slice(&junk);
+            for target in [23u8, 24] {
+                let mut m = b.clone();
+                m.extend_from_slice(&[0xC0, target, 0, 1, 0, 1, 0, 0, 0, 0, 0, 4, 1, 2, 3, 4]);
+                v.push(parse_case(&m, "hidden-pointer-structure"));
+            }
+            // the same junk as the header id (2 bytes), question name pointing at it
+            if len == 2 {
+                let mut m = vec![junk[0], junk[1], 0, 0, 0, 1, 0, 0, 0, 0, 0, 0, 0xC0, 0x00, 0, 1, 0, 1];
+                v.push(parse_case(&m, "hidden-pointer-structure"));
+                m[13] = 1;
+                v.push(parse_case(&m, "hidden-pointer-structure"));
             }
         }
     }
